@@ -14,6 +14,7 @@ class divmod_:
     args = {'dividend': Chips(), 'divisor': Int()}
     argnames = ('dividend', 'divisor')
     raises = {}
+    label = 'D∞'
 
     def requires(dividend, divisor):
         return divisor > 0 and dividend >= 0
@@ -41,6 +42,7 @@ class rake_:
     args = {'amount': Chips(), 'percentage': Fraction01(), 'cap': Cap(), 'no_flop_no_drop': Bool(), 'state': ArgSpec(kind='state')}
     argnames = ('amount', 'state', 'percentage', 'cap', 'no_flop_no_drop')
     raises = {ValueError: 'refused'}
+    label = 'D∞'
 
     def requires(amount, cap):
         return amount >= 0 and cap >= 0
